@@ -1,0 +1,8 @@
+//go:build !verif
+
+package sample
+
+import "github.com/cronokirby/saferith"
+
+// primeHook is inert unless built with -tags verif.
+func primeHook() (p, q *saferith.Nat) { return nil, nil }
